@@ -73,7 +73,8 @@ NoFields == [k \in Keys |-> 0]
 
 (***************************************************************************)
 Init ==
-  \E n \in 0..MaxInitTests, fs \in (SUBSET Keys) \ {{}} :
+  \* (a base without fields is a legal schema: Struct(nil) -- its field map is nil, not merely empty)
+  \E n \in 0..MaxInitTests, fs \in SUBSET Keys :
     LET fields == [k \in Keys |-> IF k \in fs THEN (CHOOSE i \in 1..3 : <<"a", "b", "c">>[i] = k) ELSE 0]
         tests == [i \in 1..n |-> 10 + i]
         r == AppendAll(<<>>, NilHdr, tests)
@@ -105,6 +106,11 @@ AddPT(s) ==
      /\ intended' = [intended EXCEPT ![s].pts = Append(@, nextId)]
   /\ nextId' = nextId + 1 /\ nops' = nops + 1
   /\ lastop' = [op |-> "pt", s |-> s, o |-> 0, keys |-> {}, res |-> s, id |-> nextId]
+
+\* Pick and Omit take strings and map[string]bool arguments: a string names a key, a map names the keys it flags TRUE
+\* (a FALSE flag says nothing -- in particular it does not undo what another argument said).
+\* An argument is [str, on, off]: a string argument has on = <<key>>; a map argument has the keys flagged true / false.
+Selected(args) == UNION {{a.on[i] : i \in DOMAIN a.on} : a \in {args[j] : j \in DOMAIN args}}
 
 \* cloneShallow + a new field map
 Derive(s, newFields, newIntFields, opname, ks) ==
